@@ -20,6 +20,7 @@ pub fn run(id: &str, tier: &str, seed: u64) -> Result<String, String> {
         "fasta-index-query" => crate::fastaq::fasta_index_query(tier),
         "cram-decoders-hostile" => cram_decoders_hostile(tier, seed),
         n if n.starts_with("file-") && n.contains(':') => { let (t, h) = n[5..].split_once(':').unwrap(); let x: Vec<u8> = (0..h.len() / 2).map(|i| u8::from_str_radix(&h[2 * i..2 * i + 2], 16).unwrap()).collect(); let ts = crate::hostile::targets(); let t = ts.iter().find(|k| k.name == t).ok_or("unknown target")?; (t.run)(&x); Ok("\"ran\":1".into()) }
+        "print-cram-raw-seed" => { let x = crate::hostile::cram_raw_seed_fresh(); println!("{}", x.iter().map(|b| format!("{b:02x}")).collect::<String>()); Ok("\"cases\":1".into()) }
         "file-mutations" => crate::hostile::parent(tier, None),
         n if n.starts_with("file-mutations-") => crate::hostile::parent(tier, Some(&n[15..])),
         n if n.starts_with("dec-") => { let (d, h) = n[4..].split_once(':').ok_or("dec-<decoder>:<hex>")?; let x: Vec<u8> = (0..h.len() / 2).map(|i| u8::from_str_radix(&h[2 * i..2 * i + 2], 16).unwrap()).collect(); let r = run_decoder(d, &x); Ok(format!("\"result\":{:?}", r.map(|v| v.len()).map_err(|e| e.to_string()))) }
